@@ -136,8 +136,49 @@ func (env *SpecEnv) eval(e *SExpr) *Value {
 			// type-derived guards (unsigned >= 0 etc. are not assumed for bound ints; refs >= 0 is harmless)
 			n = n.with(b.Name, v)
 		}
+		sinks := []*State{env.sink(), env.st}
+		if env.old != nil {
+			sinks = append(sinks, env.old.st)
+		}
+		marks := make([]int, len(sinks))
+		for i, s := range sinks {
+			marks[i] = len(s.openFacts)
+		}
 		body := n.evalBool(e.X)
 		_ = guards
+		// facts recorded while evaluating the body that mention the bound variables (type ranges of
+		// loaded values etc.) hold for every instance: they guard the body
+		isBound := map[string]bool{}
+		for _, b := range bound {
+			isBound[b.Op] = true
+		}
+		var facts []*Term
+		seenFact := map[int]bool{}
+		for i, s := range sinks {
+			var keep []*Term
+			keep = append(keep, s.openFacts[:marks[i]]...)
+			for _, f := range s.openFacts[marks[i]:] {
+				mine := false
+				for _, o := range f.open {
+					if isBound[o] {
+						mine = true
+					}
+				}
+				if mine {
+					if !seenFact[f.id] {
+						seenFact[f.id] = true
+						facts = append(facts, f)
+					}
+				} else {
+					keep = append(keep, f)
+				}
+			}
+			s.openFacts = keep
+		}
+		// These facts are type invariants of memory cells (integer ranges, allocatedness). They are
+		// dropped rather than attached: as assumptions they are not needed for soundness, and goals
+		// without them are only stronger.
+		_ = facts
 		if e.Op == "forall" {
 			return scalar(Forall(bound, body), types.Typ[types.Bool])
 		}
@@ -612,6 +653,31 @@ func (env *SpecEnv) evalCall(e *SExpr) *Value {
 				specFail("as: unknown type %s", tn)
 			}
 			return scalar(x.S, types.NewPointer(ty))
+		case "fieldContents":
+			// fieldContents(s, "f"): the map index -> s[index].f for a slice of structs (scalar field f)
+			x := arg(0)
+			if x.K != VSlice || e.Args[1].Kind != SStrLit {
+				specFail("fieldContents(slice, \"field\")")
+			}
+			et := x.T.Underlying().(*types.Slice).Elem()
+			stt, ok := et.Underlying().(*types.Struct)
+			if !ok {
+				specFail("fieldContents needs a slice of structs")
+			}
+			for i := 0; i < stt.NumFields(); i++ {
+				if stt.Field(i).Name() == e.Args[1].Name {
+					es, ok := scalarSort(stt.Field(i).Type())
+					if !ok {
+						specFail("fieldContents needs a scalar field")
+					}
+					cls := elemClass(et) + "." + stt.Field(i).Name()
+					noteClass(cls, SArray(SInt, es), false)
+					return &Value{K: VScalar, SpecKind: "mmap", T: stt.Field(i).Type(), S: Select(env.st.heapArr(cls, SArray(SInt, es)), x.Arr)}
+				}
+			}
+			specFail("fieldContents: no field %s", e.Args[1].Name)
+		case "zeros":
+			return &Value{K: VScalar, SpecKind: "mmap", T: types.Typ[types.Int], S: ConstArray(SArray(SInt, SInt), mkInt(0))}
 		case "contents":
 			// contents(s): the element map of slice s (index -> element), scalar element types only
 			x := arg(0)
